@@ -49,22 +49,62 @@ def arches(valid=True):
 
 
 VARIANTS = ["Server", "Client", "Workstation", "Server-optional", "Server-HighAvailability", "AppStream", "BaseOS"]
-BAD_ARCHES = ["x86", "", "X86_64", "i387", "x86_64 ", "amd65"]
-BAD_CATEGORIES = ["package", "Binary", "", "src", "sources"]
+# audit A1/A2/A4/A5: blanks, delimiters, case variants of the SAME name, non-ASCII / astral, long, type look-alikes
+VARIANTS_EXOTIC = ["server", "SERVER", "Server Optional", " Server", "Ser\tver", "Ser\u00a0ver", "S\u00e9rv\u00e9r", "\u540d\u524d", "\U0001f600",
+                   "None", "null", "0", "False", "1.0", "a/b", "a.b:c@d,e;f=g#h%i[j]", 'q"uo\'te\\', "x" * 300, "Server--optional"]
+BAD_ARCHES = ["x86", "", "X86_64", "i387", "x86_64 ", "amd65",
+              # audit C2/A7: proper prefixes and extensions of table entries and of the literals in the code
+              "sr", "srcx", "nosr", "nosrcx", "ppc6", "ppc64l", "ppc64lee", "noarc", "noarchh", " x86_64", "x86-64"]
+BAD_CATEGORIES = ["package", "Binary", "", "src", "sources", "sourc", "sourcee", "binar", "debugg", "Source", " source", "binary "]
+_RR = {"arch": 0, "ctype": 0, "label": 0}
+
+
+def reset_round_robin():
+    for k in _RR:
+        _RR[k] = 0
+
+
+def next_arches(n, valid=True):
+    """audit A7: `n` consecutive table entries from a rotating index, so that every value (the LAST one included) is used"""
+    a = arches(valid)
+    out = [a[(_RR["arch"] + i) % len(a)] for i in range(n)]
+    _RR["arch"] += n
+    return out
+
+
+def pick_variants(rng, n):
+    """mostly the plain names; sometimes exotic ones, with a case variant of a name already chosen (audit A4)"""
+    out = rng.sample(VARIANTS, n)
+    if rng.random() < 0.25:
+        out[rng.randrange(n)] = rng.choice(VARIANTS_EXOTIC)
+    if rng.random() < 0.15:
+        out.append(rng.choice([out[0].lower(), out[0].upper(), out[0].swapcase()]))
+    return out
 LABELS = ["EA", "DevelPhaseExit", "InternalAlpha", "Alpha", "InternalSnapshot", "Beta", "Snapshot", "RC", "Update", "SecurityFix"]
+
+
+RESPINS = [0, 1, 2, 10, 123, 10 ** 7, 10 ** 8, 2 ** 31, 2 ** 63 - 1, -1, True]      # audit A6 (bool is an int for the validator)
 
 
 def gen_compose(rng):
     pm = lib()
-    ctype = rng.choice(list(pm.composeinfo.COMPOSE_TYPES))
+    types = list(pm.composeinfo.COMPOSE_TYPES)
+    ctype = types[_RR["ctype"] % len(types)]                    # audit A7: round-robin, not sampled
+    _RR["ctype"] += 1
     date = "%04d%02d%02d" % (rng.randint(1999, 2030), rng.randint(1, 12), rng.randint(1, 28))
-    respin = rng.choice([0, 1, 2, 10, 123])
+    if rng.random() < 0.04:
+        date = date.translate(dict((48 + i, 0xFF10 + i) for i in range(10)))      # audit A5: `\d` also takes non-ASCII digits
+    respin = rng.choice([0, 1, 2, 10, 123]) if rng.random() < 0.8 else rng.choice(RESPINS)
     suffix = {"production": "", "ci": ".ci", "nightly": ".n", "test": ".t", "development": ".d"}.get(ctype, "")
     cid = "%s-%s-%s%s.%d" % (rng.choice(["Fedora", "RHEL", "my-prod"]), rng.choice(["23", "7.2", "Rawhide"]), date, suffix, respin)
+    r = rng.random()
+    if r < 0.08:        # audit A9: the id is free text around 8 digits - decoupled from date / type / respin
+        cid = rng.choice(["Other 23 \u2013 19990101", "x" * 300 + "20000229.n.7", "\U0001f600-20201231.t.10", 'q"uo\\te-20101010', "12345678"])
     label = None
     final = False
     if rng.random() < 0.4:
-        label = "%s-%d.%d" % (rng.choice(LABELS), rng.randint(0, 12), rng.randint(0, 9))
+        label = "%s-%d.%d" % (LABELS[_RR["label"] % len(LABELS)], rng.choice([0, 1, 7, 10, 12, 123]), rng.choice([0, 1, 9, 10, 25]))
+        _RR["label"] += 1
         final = rng.random() < 0.5
     elif rng.random() < 0.1:
         final = True                      # final without a label: not written, read back as False (documented)
@@ -117,7 +157,7 @@ def mutate_str(rng, s, alphabet=":-./ \nA1z"):
     return "".join(s)
 
 
-READONLY = ("dump_for_tree", "getitem", "dumps")
+READONLY = ("dump_for_tree", "getitem", "dumps", "validate")
 
 
 def apply_call(obj, add, op):
@@ -132,19 +172,33 @@ def apply_call(obj, add, op):
         return enc(obj[op["variant"]])
     if call == "dumps":
         return obj.dumps()
+    if call == "validate":
+        obj.validate()
+        obj.header.validate()
+        return None
     add(obj, op)
     return None
 
 
-def run_trace(obj, mapping_of, add, ops):
-    """apply `ops` one by one to the real object; after each: outcome and a deep snapshot of the WHOLE mapping"""
+def run_trace(obj, mapping_of, add, ops, twin=None):
+    """apply `ops` one by one to the real object; after each: outcome and a deep snapshot of the WHOLE mapping.
+    With `twin` (a second object of the same class, audit B1) every call is also made on the twin, interleaved; the
+    first step at which the two objects differ is recorded in the step (`twin_differs`)."""
     steps = []
     for op in ops:
         try:
             out = {"ok": apply_call(obj, add, op)}
         except Exception as e:  # noqa
             out = {"err": type(e).__name__}
-        steps.append({"out": out, "state": enc(mapping_of(obj))})
+        st = {"out": out, "state": enc(mapping_of(obj))}
+        if twin is not None:
+            try:
+                out2 = {"ok": apply_call(twin, add, op)}
+            except Exception as e:  # noqa
+                out2 = {"err": type(e).__name__}
+            if out2 != out or enc(mapping_of(twin)) != st["state"]:
+                st["twin_differs"] = {"out": out2, "state": enc(mapping_of(twin))}
+        steps.append(st)
     return steps
 
 
@@ -160,8 +214,10 @@ def interleave_readonly(rng, ops, kind, bases):
             r = rng.random()
             if kind == "extra_files" and r < 0.7:
                 out.append(tree_call(rng, ref, bases))
-            elif r < 0.9:
+            elif r < 0.8:
                 out.append({"call": "getitem", "variant": ref["variant"] if rng.random() < 0.85 else "Nope", "why": "getitem"})
+            elif r < 0.9:
+                out.append({"call": "validate", "why": "validate"})
             else:
                 out.append({"call": "dumps", "why": "dumps"})
     if kind == "extra_files" and seen and rng.random() < 0.5:
